@@ -29,6 +29,30 @@ func c02Gen(t *rapid.T) interface{} {
 	c.In = genRecipe(t, c.Thr)
 	if !c.Corpus.Full {
 		c.Corpus = smallCorpusAround(t, c.In.docs())
+		if c.Corpus.ReAdd && len(c.In.docs()) > 0 && lib.Bool(t, "inputIsOlderRevision") {
+			// the corpus entry was replaced: a text equal to what it held before must be scored against what it holds now
+			c.In.Segs = append(c.In.Segs, seg{Kind: "raw", Raw: olderRevision(assets()[c.In.docs()[0]%len(assets())].Content)})
+		}
+		if lib.IntN(t, 0, 2, "withSynth") == 0 {
+			// a user-added document (short words, one-letter words, numbers; sometimes ending in such a word) and an
+			// input made from it: words dropped at the end / start, a few replaced
+			d := genSynthDoc(t, 0, 12, 120)
+			w := strings.Fields(d.Text)
+			if lib.Bool(t, "shortLastWord") {
+				w = append(w, lib.PickStr(t, []string{"b", "2", "a", "x", "3"}, "lastWord"))
+				d.Text = strings.Join(w, " ")
+			}
+			c.Corpus.Synth = append(c.Corpus.Synth, d)
+			in := append([]string{}, w...)
+			dropTail := lib.IntN(t, 0, 3, "dropTail")
+			if dropTail < len(in) {
+				in = in[:len(in)-dropTail]
+			}
+			for i := 0; i < lib.IntN(t, 0, 4, "nsub"); i++ {
+				in[lib.IntN(t, 0, len(in)-1, "subPos")] = "zqsubstituted"
+			}
+			c.In.Segs = append(c.In.Segs, seg{Kind: "raw", Raw: []byte("zqlead zqwords here\n" + strings.Join(in, " ") + "\n")})
+		}
 	}
 	return c
 }
